@@ -1117,4 +1117,124 @@ example (n : Nat) (rest : List Char) (more : List Tok) :=
         decide)
     n rest more
 
+/-! ### `activity(id, start, end, [k=v, …])` -/
+
+def actText (q : QName) (s e : String) (pairs : List (QName × Value)) : String :=
+  "activity" ++ "(" ++ joinWith ", " [q.print, s, e] ++ tailText pairs
+
+def actToks (q : QName) (s e : String) (pairs : List (QName × Value)) : List Tok :=
+  Tok.word "activity" :: Tok.lp :: (wordsToks [q.print, s, e] ++ tailToks pairs)
+
+theorem c06_act_lex (q : QName) (hq : IsWord q.print.toList) (s e : String) (hs : IsWord s.toList) (he : IsWord e.toList)
+    (pairs : List (QName × Value)) (hp : ∀ p ∈ pairs, IsWord p.1.print.toList ∧ Printable p.2) (n : Nat) (rest : List Char) :
+    lex (n + (2 + wordsSteps [q.print, s, e] + tailSteps pairs)) ((actText q s e pairs).toList ++ rest) =
+      (lex n rest).map (actToks q s e pairs ++ ·) := by
+  have hl : ("(" : String).toList = ['('] := rfl
+  have hkw : IsWord ("activity" : String).toList := isWord_lit _ (by decide) (by decide) (by decide)
+  have htl := lex_tail pairs hp n rest
+  have hws := lex_words [q.print, s, e] (by simp) (by
+    intro w hw
+    simp only [List.mem_cons, List.mem_nil_iff, or_false] at hw
+    rcases hw with rfl | rfl | rfl <;> assumption) (n + tailSteps pairs) ((tailText pairs).toList ++ rest) (tailText_head pairs rest)
+  simp only [actText, actToks, String.toList_append, hl, List.append_assoc, List.cons_append, List.nil_append]
+  rw [show n + (2 + wordsSteps [q.print, s, e] + tailSteps pairs) = ((n + tailSteps pairs + wordsSteps [q.print, s, e]) + 1) + 1 by omega,
+    lex_word _ ("activity" : String).toList _ hkw (by intro c hc; simp at hc; subst hc; decide), lex_lp, hws, htl]
+  cases lex n rest <;> simp
+
+/-- the time slot of an activity: the marker or a valid date-time's text -/
+def timeWord : Option Value → String
+  | some v => provnFormal v
+  | none => "-"
+
+def TimeOk : Option Value → Prop
+  | none => True
+  | some (.dt t) => t.iso ≠ "-"
+  | _ => False
+
+def timeAbs (a : String) : Option Value → List (String × AVal)
+  | some v => [(provNs ++ a, C10.absValue v)]
+  | none => []
+
+theorem timeAbs_word (a : String) (v : Option Value) (h : TimeOk v) :
+    (if timeWord v == "-" then [] else [(provNs ++ a, AVal.dt (timeWord v))]) = timeAbs a v := by
+  cases v with
+  | none => rfl
+  | some x =>
+    cases x with
+    | dt t =>
+      have h' : t.iso ≠ "-" := h
+      have hne : (t.iso == "-") = false := by simpa using h'
+      simp [timeWord, provnFormal, hne, timeAbs, C10.absValue]
+    | _ => exact absurd h (by simp [TimeOk])
+
+theorem c06_act_parse (sc : Scope) (std : StdScopeN sc) (hints : List (String × FloatAtom)) (q : QName)
+    (hq : sc.resolve q.print = some q.uri) (st en : Option Value) (hst : TimeOk st) (hen : TimeOk en)
+    (pairs : List (QName × Value)) (fuel : Nat) (hf : pairs.length < fuel)
+    (hp : ∀ p ∈ pairs, sc.resolve p.1.print = some p.1.uri ∧ ParseReadable sc hints p.2) (more : List Tok) :
+    pExpr sc hints fuel (actToks q (timeWord st) (timeWord en) pairs ++ more) =
+      some (⟨"Activity", some q.uri, timeAbs "startTime" st ++ timeAbs "endTime" en ++
+        pairs.map (fun p => (p.1.uri, C10.absValue p.2))⟩, more) := by
+  have htail := pTail_tail sc std hints pairs fuel hf true (Or.inr rfl) hp more
+  have h1 := timeAbs_word "startTime" st hst
+  have h2 := timeAbs_word "endTime" en hen
+  simp only [actToks, wordsToks, List.cons_append, List.nil_append, List.append_assoc, pExpr,
+    show (("activity" : String) == "entity" || ("activity" : String) == "agent") = false by decide,
+    show (("activity" : String) == "activity") = true by decide, Bool.false_eq_true, if_false, if_true, hq, htail, Option.map_some]
+  rw [h1, h2]
+
+/-- the printer's text of an activity record -/
+theorem provnRecord_act (r : Record) (hk : r.kind = .activity) (q : QName) (hid : r.id = some q) :
+    provnRecord r = actText q (timeWord (r.get (formalQ "startTime")).head?) (timeWord (r.get (formalQ "endTime")).head?) (recPairs r) := by
+  have hextras : provnExtras r = (recPairs r).map (fun p => p.1.print ++ "=" ++ provnValue p.2) := by
+    simp [provnExtras, recPairs, List.map_flatMap, List.map_map]
+    rfl
+  have hidi : provnIdItems r = ([q.print], "") := by simp [provnIdItems, hid, hk, RecKind.isElement]
+  have hfo : provnFormals r = [timeWord (r.get (formalQ "startTime")).head?, timeWord (r.get (formalQ "endTime")).head?] := by
+    simp only [provnFormals, hk]
+    show [_, _] = _
+    simp only [timeWord]
+    rfl
+  unfold provnRecord
+  simp only [hidi, hfo, hextras, hk]
+  unfold actText tailText
+  have hpn : RecKind.activity.provN = "activity" := rfl
+  rw [hpn]
+  by_cases he : (recPairs r).isEmpty = true
+  · have hnil : recPairs r = [] := by simpa using he
+    simp [hnil, String.append_assoc]
+  · have he0 : (recPairs r).isEmpty = false := by simpa using he
+    have hne : recPairs r ≠ [] := by simpa using he
+    have hme : ((recPairs r).map (fun p => p.1.print ++ "=" ++ provnValue p.2)).isEmpty = false := by simpa using hne
+    simp only [hme, he0, Bool.false_eq_true, if_false, List.cons_append, List.nil_append]
+    have := joinWith_snoc [q.print, timeWord (r.get (formalQ "startTime")).head?, timeWord (r.get (formalQ "endTime")).head?]
+      ("[" ++ joinWith ", " ((recPairs r).map (fun p => p.1.print ++ "=" ++ provnValue p.2)) ++ "]") (by simp)
+    simp only [List.cons_append, List.nil_append] at this
+    rw [this, ← itemsText_eq (recPairs r) hne]
+    simp only [String.append_assoc]
+    have hcat : ∀ X : String, ", " ++ ("[" ++ X) = ", [" ++ X := fun X => by
+      rw [← String.append_assoc]
+      have : (", " : String) ++ "[" = ", [" := by decide +kernel
+      rw [this]
+    simp [hcat]
+
+/-- **C06 for an activity record, from characters to content** -/
+theorem c06_activity (sc : Scope) (std : StdScopeN sc) (hints : List (String × FloatAtom)) (r : Record)
+    (hk : r.kind = .activity) (q : QName) (hid : r.id = some q)
+    (hqw : IsWord q.print.toList) (hqr : sc.resolve q.print = some q.uri)
+    (hst : TimeOk (r.get (formalQ "startTime")).head? ∧ IsWord (timeWord (r.get (formalQ "startTime")).head?).toList)
+    (hen : TimeOk (r.get (formalQ "endTime")).head? ∧ IsWord (timeWord (r.get (formalQ "endTime")).head?).toList)
+    (hp : ∀ p ∈ recPairs r, IsWord p.1.print.toList ∧ Printable p.2 ∧ sc.resolve p.1.print = some p.1.uri ∧ ParseReadable sc hints p.2)
+    (n : Nat) (rest : List Char) (more : List Tok) :
+    ∃ steps toks, lex (n + steps) ((provnRecord r).toList ++ rest) = (lex n rest).map (toks ++ ·) ∧
+      pExpr sc hints ((recPairs r).length + 1) (toks ++ more) =
+        some (⟨"Activity", some q.uri, timeAbs "startTime" (r.get (formalQ "startTime")).head? ++
+          timeAbs "endTime" (r.get (formalQ "endTime")).head? ++ (recPairs r).map (fun p => (p.1.uri, C10.absValue p.2))⟩, more) := by
+  refine ⟨2 + wordsSteps [q.print, timeWord (r.get (formalQ "startTime")).head?, timeWord (r.get (formalQ "endTime")).head?] +
+      tailSteps (recPairs r),
+    actToks q (timeWord (r.get (formalQ "startTime")).head?) (timeWord (r.get (formalQ "endTime")).head?) (recPairs r), ?_, ?_⟩
+  · rw [provnRecord_act r hk q hid]
+    exact c06_act_lex q hqw _ _ hst.2 hen.2 (recPairs r) (fun p hp' => ⟨(hp p hp').1, (hp p hp').2.1⟩) n rest
+  · exact c06_act_parse sc std hints q hqr _ _ hst.1 hen.1 (recPairs r) _ (Nat.lt_succ_self _)
+      (fun p hp' => ⟨(hp p hp').2.2.1, (hp p hp').2.2.2⟩) more
+
 end Prov.C06
